@@ -2,13 +2,14 @@
    (Gen/StrsGo.v): isASCIILower/Upper/Digit, JSONCamelCase, JSONSnakeCase and
    GoCamelCase (nested loop that advances i) equal the hand model of
    CodeGen/NamesModel.v on every string shorter than 2^63 bytes (every Go
-   string), and in particular return neither Panic (an index out of range) nor
+   string), TrimEnumPrefix (loop with continue, unicode.ToLower, strings.TrimLeft)
+   equals the hand model of CodeGen/StrsTrimModel.v on all strings, and in particular return neither Panic (an index out of range) nor
    Fuel.  Each loop is first identified, by conversion ([reflexivity]), with a
    closed form below, so a change to the loops in strings.go breaks these
    proofs. *)
 From Coq Require Import List Arith NArith ZArith Lia Bool.
 From Coq Require Import ZifyBool ZifyNat ZifyN.
-From PB Require Import Base.PBytes Base.GoInt CodeGen.NamesModel CodeGen.NamesP.
+From PB Require Import Base.PBytes Base.GoInt CodeGen.NamesModel CodeGen.NamesP CodeGen.StrsGoBase CodeGen.StrsTrimModel.
 From PB Require Import Gen.StrsGo.
 Ltac Zify.zify_post_hook ::= Z.div_mod_to_equations.
 Import ListNotations.
@@ -451,3 +452,145 @@ Qed.
 Theorem go_isASCII_eq c :
   go_isASCIILower (zc c) = is_lower c /\ go_isASCIIUpper (zc c) = is_upper c /\ go_isASCIIDigit (zc c) = is_digit c.
 Proof. auto using lower_zc, upper_zc, digit_zc. Qed.
+
+(* ------------------------------------------------------------------ *)
+(* TrimEnumPrefix                                                      *)
+Definition te_loop (v_s0 : list Z) :=
+  fix loop1 (lfuel : nat) (v_s : list Z) (v_prefix : list Z) {struct lfuel} : outcome (list Z) :=
+    match lfuel with
+    | O => Fuel
+    | S lfuel' =>
+      if (0 <? len v_s) && (0 <? len v_prefix) then
+        bind (index v_s 0) (fun t1 =>
+        if t1 =? 95 then bind (slice_lo v_s 1) (fun t2 => loop1 lfuel' t2 v_prefix)
+        else
+          bind (index v_s 0) (fun t3 =>
+          bind (index v_prefix 0) (fun t4 =>
+          if negb (unicode_ToLower (wrap_i32 t3) =? wrap_i32 t4) then Val v_s0
+          else bind (slice_lo v_s 1) (fun t5 => bind (slice_lo v_prefix 1) (fun t6 => loop1 lfuel' t5 t6)))))
+      else if 0 <? len v_prefix then Val v_s0
+      else if len (strings_TrimLeft v_s [95]) =? 0 then Val v_s0
+      else Val (strings_TrimLeft v_s [95])
+    end.
+
+Lemma go_TrimEnumPrefix_shape s prefix :
+  go_TrimEnumPrefix s prefix = te_loop s (S (length s + length prefix)) s prefix.
+Proof. reflexivity. Qed.
+
+Lemma te_loop_S s0 fuel s prefix :
+  te_loop s0 (S fuel) s prefix =
+  if (0 <? len s) && (0 <? len prefix) then
+    bind (index s 0) (fun t1 =>
+    if t1 =? 95 then bind (slice_lo s 1) (fun t2 => te_loop s0 fuel t2 prefix)
+    else
+      bind (index s 0) (fun t3 =>
+      bind (index prefix 0) (fun t4 =>
+      if negb (unicode_ToLower (wrap_i32 t3) =? wrap_i32 t4) then Val s0
+      else bind (slice_lo s 1) (fun t5 => bind (slice_lo prefix 1) (fun t6 => te_loop s0 fuel t5 t6)))))
+  else if 0 <? len prefix then Val s0
+  else if len (strings_TrimLeft s [95]) =? 0 then Val s0
+  else Val (strings_TrimLeft s [95]).
+Proof. reflexivity. Qed.
+
+
+(* unicode.ToLower(rune(c)) == rune(p) *)
+Lemma tolower_zc c p :
+  (unicode_ToLower (wrap_i32 (zc c)) =? wrap_i32 (zc p)) = (lower_latin1 c =? b2n p)%N.
+Proof.
+  pose proof (zc_range c). pose proof (zc_range p).
+  replace (wrap_i32 (zc c)) with (zc c) by (unfold wrap_i32; lia).
+  replace (wrap_i32 (zc p)) with (zc p) by (unfold wrap_i32; lia).
+  unfold unicode_ToLower, lower_latin1, zc in *. cbv zeta.
+  replace ((65 <=? Z.of_N (b2n c)) && (Z.of_N (b2n c) <=? 90) || (192 <=? Z.of_N (b2n c)) && (Z.of_N (b2n c) <=? 214)
+           || (216 <=? Z.of_N (b2n c)) && (Z.of_N (b2n c) <=? 222))
+    with ((65 <=? b2n c) && (b2n c <=? 90) || (192 <=? b2n c) && (b2n c <=? 214) || (216 <=? b2n c) && (b2n c <=? 222))%N
+    by lia.
+  destruct ((65 <=? b2n c) && (b2n c <=? 90) || (192 <=? b2n c) && (b2n c <=? 214) || (216 <=? b2n c) && (b2n c <=? 222))%N;
+    apply eq_iff_eq_true; rewrite Z.eqb_eq, N.eqb_eq; lia.
+Qed.
+
+Lemma trimleft_zb s : strings_TrimLeft (zb s) [95] = zb (trim_us s).
+Proof.
+  induction s as [|c r IH]; [reflexivity|]. cbn [zb map strings_TrimLeft trim_us existsb].
+  rewrite orb_false_r, us_zc. destruct (is_us c); [exact IH|reflexivity].
+Qed.
+
+Lemma index0_zb c r : index (zb (c :: r)) 0 = Val (zc c).
+Proof. reflexivity. Qed.
+Lemma slice1_zb c r : slice_lo (zb (c :: r)) 1 = Val (zb r).
+Proof.
+  unfold slice_lo. rewrite len_zb. cbn [length].
+  replace ((1 <? 0) || (Z.of_nat (S (length r)) <? 1)) with false by lia. reflexivity.
+Qed.
+
+Definition trim_result (s0 : list byte) (o : option (list byte)) : list byte :=
+  match o with
+  | None => s0
+  | Some r => match trim_us r with [] => s0 | r' => r' end
+  end.
+
+Lemma te_tail s0 r :
+  (if len (strings_TrimLeft (zb r) [95]) =? 0 then Val (zb s0) else Val (strings_TrimLeft (zb r) [95])) =
+  Val (zb (trim_result s0 (Some r))).
+Proof.
+  rewrite trimleft_zb, len_zb. cbn [trim_result]. destruct (trim_us r) as [|x t]; [reflexivity|].
+  cbn [length]. replace (Z.of_nat (S (length t)) =? 0) with false by lia. reflexivity.
+Qed.
+
+Lemma te_loop_ok s0 : forall s prefix fuel, (length s + length prefix < fuel)%nat ->
+  te_loop (zb s0) fuel (zb s) (zb prefix) = Val (zb (trim_result s0 (trim_aux s prefix))).
+Proof.
+  induction s as [|c r IH]; intros prefix fuel Hf; (destruct fuel as [|fuel]; [lia|]); rewrite te_loop_S, !len_zb.
+  - cbn [length andb Z.of_nat Z.ltb Z.compare]. destruct prefix as [|p q].
+    + cbn [length Z.of_nat Z.ltb Z.compare trim_aux]. apply (te_tail s0 []).
+    + cbn [length]. replace (0 <? Z.of_nat (S (length q))) with true by lia. reflexivity.
+  - cbn [length] in *. replace (0 <? Z.of_nat (S (length r))) with true by lia. cbn [andb].
+    destruct prefix as [|p q].
+    + cbn [length Z.of_nat Z.ltb Z.compare trim_aux]. apply (te_tail s0 (c :: r)).
+    + cbn [length] in *. replace (0 <? Z.of_nat (S (length q))) with true by lia.
+      rewrite !index0_zb. cbn [bind]. rewrite us_zc. cbn [trim_aux].
+      destruct (is_us c).
+      * rewrite slice1_zb. cbn [bind]. apply (IH (p :: q)). cbn [length]. lia.
+      * rewrite tolower_zc.
+        destruct (lower_latin1 c =? b2n p)%N; cbn [negb]; [|reflexivity].
+        rewrite !slice1_zb. cbn [bind]. apply IH. lia.
+Qed.
+
+Theorem go_TrimEnumPrefix_eq s prefix :
+  go_TrimEnumPrefix (zb s) (zb prefix) = Val (zb (trim_enum_prefix s prefix)).
+Proof.
+  rewrite go_TrimEnumPrefix_shape, (te_loop_ok s s prefix); [reflexivity|]. rewrite !zb_length. lia.
+Qed.
+
+(* TrimEnumPrefix never returns the empty string for a non-empty name, and what
+   it returns is a suffix of the name *)
+Lemma trim_us_suffix s : exists p, s = p ++ trim_us s.
+Proof.
+  induction s as [|c r [p IH]]; [now exists []|]. cbn [trim_us].
+  destruct (is_us c); [|now exists []]. exists (c :: p). cbn [app]. now rewrite <- IH.
+Qed.
+Lemma trim_aux_suffix : forall s prefix r, trim_aux s prefix = Some r -> exists p, s = p ++ r.
+Proof.
+  induction s as [|c t IH]; intros prefix r H.
+  - destruct prefix; [|discriminate]. injection H as <-. now exists [].
+  - cbn [trim_aux] in H. destruct prefix as [|p q]; [injection H as <-; now exists []|].
+    destruct (is_us c).
+    + destruct (IH _ _ H) as [x ->]. now exists (c :: x).
+    + destruct (lower_latin1 c =? b2n p)%N; [|discriminate]. destruct (IH _ _ H) as [x ->]. now exists (c :: x).
+Qed.
+Theorem trim_enum_prefix_suffix_nonempty s prefix :
+  (exists p, s = p ++ trim_enum_prefix s prefix) /\ (s <> [] -> trim_enum_prefix s prefix <> []).
+Proof.
+  unfold trim_enum_prefix. destruct (trim_aux s prefix) as [r|] eqn:E.
+  - destruct (trim_us r) as [|x t] eqn:T.
+    + split; [now exists []|auto].
+    + split; [|discriminate]. destruct (trim_aux_suffix _ _ _ E) as [p1 ->].
+      destruct (trim_us_suffix r) as [p2 E2]. rewrite T in E2. exists (p1 ++ p2). rewrite <- app_assoc. now rewrite <- E2.
+  - split; [now exists []|auto].
+Qed.
+Theorem go_TrimEnumPrefix_suffix_nonempty s prefix :
+  exists p o, go_TrimEnumPrefix (zb s) (zb prefix) = Val (zb o) /\ s = p ++ o /\ (s <> [] -> o <> []).
+Proof.
+  destruct (trim_enum_prefix_suffix_nonempty s prefix) as [[p E] N].
+  exists p, (trim_enum_prefix s prefix). rewrite go_TrimEnumPrefix_eq. auto.
+Qed.
